@@ -156,11 +156,14 @@ fn do_iter<KT: DbMapKeyType, I: Iterator<Item = (Option<KT>, Option<Vec<u8>>)>>(
     mut it: I,
     hint: &dyn Fn(&I) -> (usize, Option<usize>),
     cap: usize,
+    between: &mut dyn FnMut(usize),
 ) -> Value {
     let mut items = vec![];
     let mut hints = vec![];
     let mut overrun = false;
     loop {
+        // read-only calls on the same map between two steps of the live traversal
+        between(items.len());
         let h = hint(&it);
         hints.push(if Some(h.0) == h.1 { h.0 as i64 } else { -1 });
         match it.next() {
@@ -181,33 +184,45 @@ fn do_iter<KT: DbMapKeyType, I: Iterator<Item = (Option<KT>, Option<Vec<u8>>)>>(
     json!({"items": items, "hints": hints, "fused": a && b, "overrun": overrun})
 }
 
-fn iter_map<KT: DbMapKeyType>(t: &Tables, m: &mut abyssiniandb::filedb::FileDbMap<KT>, flavour: &str) -> Value {
+fn iter_map<KT: DbMapKeyType + for<'a> From<&'a [u8]>>(t: &Tables, m: &mut abyssiniandb::filedb::FileDbMap<KT>, flavour: &str, interleave: &[String], probe: &[Vec<u8>]) -> Value {
     let len = m.len().unwrap_or(0) as usize;
     let cap = 4 * len + 64;
+    let mut m2 = m.clone();          // another handle to the same map (aliases the same state)
+    let mut between = |step: usize| {
+        if interleave.is_empty() { return; }
+        match interleave[step % interleave.len()].as_str() {
+            "len" => { let _ = m2.len(); }
+            "is_empty" => { let _ = m2.is_empty(); }
+            "new_iter" => { let _ = m2.keys().size_hint(); let _ = m2.iter().size_hint(); }
+            "get" => { if !probe.is_empty() { let k = &probe[step % probe.len()]; let _ = m2.get::<[u8]>(&k[..]); } }
+            "includes" => { if !probe.is_empty() { let k = &probe[step % probe.len()]; let _ = m2.includes_key::<[u8]>(&k[..]); } }
+            _ => {}
+        }
+    };
     match flavour {
         "iter" => {
             let it = m.iter();
-            do_iter::<KT, _>(t, it.map(|(k, v)| (Some(k), Some(v))), &|i| i.size_hint(), cap)
+            do_iter::<KT, _>(t, it.map(|(k, v)| (Some(k), Some(v))), &|i| i.size_hint(), cap, &mut between)
         }
         "iter_mut" => {
             let it = m.iter_mut();
-            do_iter::<KT, _>(t, it.map(|(k, v)| (Some(k), Some(v))), &|i| i.size_hint(), cap)
+            do_iter::<KT, _>(t, it.map(|(k, v)| (Some(k), Some(v))), &|i| i.size_hint(), cap, &mut between)
         }
         "keys" => {
             let it = m.keys();
-            do_iter::<KT, _>(t, it.map(|k| (Some(k), None)), &|i| i.size_hint(), cap)
+            do_iter::<KT, _>(t, it.map(|k| (Some(k), None)), &|i| i.size_hint(), cap, &mut between)
         }
         "values" => {
             let it = m.values();
-            do_iter::<KT, _>(t, it.map(|v| (None, Some(v))), &|i| i.size_hint(), cap)
+            do_iter::<KT, _>(t, it.map(|v| (None, Some(v))), &|i| i.size_hint(), cap, &mut between)
         }
         "into_iter" => {
             let it = m.clone().into_iter();
-            do_iter::<KT, _>(t, it.map(|(k, v)| (Some(k), Some(v))), &|i| i.size_hint(), cap)
+            do_iter::<KT, _>(t, it.map(|(k, v)| (Some(k), Some(v))), &|i| i.size_hint(), cap, &mut between)
         }
         "ref_into_iter" => {
             let it = (&*m).into_iter();
-            do_iter::<KT, _>(t, it.map(|(k, v)| (Some(k), Some(v))), &|i| i.size_hint(), cap)
+            do_iter::<KT, _>(t, it.map(|(k, v)| (Some(k), Some(v))), &|i| i.size_hint(), cap, &mut between)
         }
         _ => json!({"error": "flavour"}),
     }
@@ -305,7 +320,9 @@ impl Ctx {
                     let mut o = Map::new();
                     o.insert("id".into(), json!(id));
                     o.insert("len".into(), json!(b.len()));
-                    o.insert("h30".into(), json!(decode::placement_hash(b) & ((1 << 30) - 1)));
+                    let hh = decode::placement_hash(b);
+                    o.insert("h30".into(), json!(hh & ((1 << 30) - 1)));
+                    o.insert("h4".into(), json!([hh & 0xffff, (hh >> 16) & 0xffff, (hh >> 32) & 0xffff, (hh >> 48) & 0xffff]));
                     if b.len() <= 40 { o.insert("bytes".into(), json!(b)); }
                     if let Some(x) = int {
                         o.insert("x4".into(), json!([x & 0xffff, (x >> 16) & 0xffff, (x >> 32) & 0xffff, (x >> 48) & 0xffff]));
@@ -509,8 +526,14 @@ impl Ctx {
                 let h = op["h"].as_i64().ok_or("h")?;
                 let fl = op["flavour"].as_str().unwrap_or("iter").to_string();
                 let t = &self.tables;
+                let inter: Vec<String> = op.get("interleave").and_then(|a| a.as_array()).map(|a| a.iter().filter_map(|x| x.as_str().map(|s| s.to_string())).collect()).unwrap_or_default();
+                let mut probe: Vec<Vec<u8>> = vec![];
+                if let Some(ks) = op.get("probe").and_then(|a| a.as_array()) {
+                    for k in ks { if let Some(b) = t.keys.get(k.as_i64().unwrap_or(0)) { probe.push(b.clone()); } }
+                }
+                if !inter.is_empty() { ev.insert("interleave".into(), json!(inter)); }
                 let e = self.maps.get_mut(&h).ok_or("no such handle")?;
-                let v = with_map!(&mut e.h, m => iter_map(t, m, &fl));
+                let v = with_map!(&mut e.h, m => iter_map(t, m, &fl, &inter, &probe));
                 ev.insert("outcome".into(), json!("ok"));
                 for (k, x) in v.as_object().unwrap() {
                     ev.insert(k.clone(), x.clone());
